@@ -176,7 +176,7 @@ def source_hashes(functions):
     return out
 
 
-def run_property(pid, level, units, explanation, trusted_base, min_obligations=1, argv=None):
+def run_property(pid, level, units, explanation, trusted_base, min_obligations=1, argv=None, ns_pass=True):
     """Driver used by every /verif/contracts/<pid>.py"""
     argv = sys.argv[1:] if argv is None else argv
     tier = os.environ.get("VERIF_TIER", "quick")
@@ -200,7 +200,7 @@ def run_property(pid, level, units, explanation, trusted_base, min_obligations=1
         # child of a thorough run (second generic extent): hand the raw unit results to the parent, write nothing else
         json.dump(jsonable(results), open(dump, "w"))
         return 0
-    if tier == "thorough" and os.environ.get("VERIF_NS") is None and os.environ.get("VERIF_SECOND_PASS", "1") != "0":
+    if tier == "thorough" and ns_pass and os.environ.get("VERIF_NS") is None and os.environ.get("VERIF_SECOND_PASS", "1") != "0":
         # thorough tier: every unit is regenerated with a second generic sample extent (NS = 3), so that a fact which holds only because an
         # axis has length 2 fails; the records are merged under names suffixed with ' @NS=3'
         import subprocess
